@@ -5,7 +5,8 @@ import Sentinel.Model.Isolation
 
     ops:  `load <res:threshold>*`
           `entry <id> <res> <batch>`            => `pass` | `block iso <rule-index> <triggered-value>` | `dup`
-          `exit <id> [err]`, `dexit <id>` (two concurrent Exit calls), `trace <id>` (no-op), `entry … type=<t>` (same as without)
+          `exit <id> [err]`, `dexit <id>` (two concurrent Exit calls), `trace <id>` (no-op), `entry … type=<t>` (same as without),
+          `entry <id> <res> -` (no batch option = batch 1), `manyres <n>` (enter+exit n fresh rule-less resources: no-op)
           `conc <res>`                          => gauge
           `sched <id0> <res> <b0,b1,…> <i0,i1,…|->`  => `[r0,…] max=<g>`   (r = `-` idle, `p` in flight, `x` exited, `b<idx>:<tv>` blocked)
           `par <id0> <k> <res> <batch>`         = `sched id0 res b,…,b 0,…,k-1,0,…,k-1`
@@ -19,9 +20,13 @@ def u32? (s : String) : Option UInt32 :=
   | some n => if n < 4294967296 then some (UInt32.ofNat n) else none
   | none => none
 
+/-- `-` = no `WithBatchCount` option: `EntryOptions` default batch 1 -/
+def batch? (s : String) : Option UInt32 := if s = "-" then some 1 else u32? s
+
+/-- resource names starting with `#` are reserved for `manyres` (they never carry a rule) -/
 def rule? (s : String) : Option (String × UInt32) :=
   match s.splitOn ":" with
-  | [r, t] => if r = "" then none else (u32? t).map fun t => (r, t)
+  | [r, t] => if r = "" ∨ r.startsWith "#" then none else (u32? t).map fun t => (r, t)
   | _ => none
 
 def list? {α} (f : String → Option α) (s : String) : Option (List α) :=
@@ -37,9 +42,9 @@ def resType (s : String) : Bool :=
 
 def parse : List String → Option Op
   | "load" :: rs => (rs.mapM rule?).map .load
-  | ["entry", id, res, b] => do some (.entry (← id.toNat?) res (← u32? b))
+  | ["entry", id, res, b] => do some (.entry (← id.toNat?) res (← batch? b))
   | ["entry", id, res, b, ty] =>     -- the gauge belongs to the resource NAME, whatever the resource type of the entry
-      if resType ty then do some (.entry (← id.toNat?) res (← u32? b)) else none
+      if resType ty then do some (.entry (← id.toNat?) res (← batch? b)) else none
   | ["exit", id] => do some (.exit (← id.toNat?))
   | ["exit", id, "err"] => do some (.exit (← id.toNat?))      -- an error on the entry changes nothing in the accounting
   | ["dexit", id] => do some (.exit (← id.toNat?))            -- Exit called twice at once = one Exit
@@ -76,6 +81,10 @@ def showOut : Out → Option String
 /-- `trace <id>` (api.TraceError) never touches rules, gauges or handles: a no-op of both machines -/
 def isTrace : List String → Bool
   | ["trace", id] => id.toNat?.isSome
+  | ["manyres", n] =>       -- enter and exit `n` fresh rule-less resources `#…`: nothing is in flight afterwards, no other gauge moves
+      match n.toNat? with
+      | some n => n ≤ 100000
+      | none => false
   | _ => false
 
 def stepModel (s : St) (ts : List String) (_ : String) : St × Option String :=
